@@ -172,7 +172,7 @@ func c02Run(c *ev.Ctx, k c02Case) {
 
 func checkC02(c *ev.Ctx) {
 	defer cleanupScratch()
-	c.Rule("real gensign.Run + regular.Handler, honest agent, recording CA; the signing request received by the CA is compared with a reference record built from server-side inputs: strings {plain, JSON metacharacters, <>&, non-ASCII, 200 chars, empty} for login/user/host/IP/transaction id varied one field at a time and jointly x CA algorithm{0,1,2,3,4,99}; handler configurations: validity{1,3600,43200,315360000} x every non-colliding subset (size<=3; thorough <=4) of key_identifiers keys {rsa,RSA,Ecdsa,ed25519,default,unknown,1,3,99} x algorithm; two consecutive requests per case. non-trivial = request signed and compared; distinct by case")
+	c.Rule("real gensign.Run + regular.Handler, honest agent, recording CA; the signing request received by the CA is compared with a reference record built from server-side inputs: strings {plain, JSON metacharacters, <>&, non-ASCII, 200 chars, empty} for login/user/host/IP/transaction id varied one field at a time and jointly x CA algorithm{0,1,2,3,4,99}; handler configurations: validity{1,3600,43200,315360000,2^32+43200} x every non-colliding subset (size<=3; thorough <=4) of key_identifiers keys {rsa,RSA,Ecdsa,ed25519,default,unknown,1,3,99} x algorithm; two consecutive requests per case. non-trivial = request signed and compared; distinct by case")
 	c.Assume("key_identifiers names are normalised case-insensitively or numerically (reference table in the harness)")
 	if c.ReplayCase != nil {
 		var k c02Case
@@ -250,7 +250,7 @@ func checkC02(c *ev.Ctx) {
 		for _, nm := range sub {
 			ids[nm] = "slot-for-" + nm
 		}
-		for _, val := range []uint64{1, 3600, 43200, 315360000} {
+		for _, val := range []uint64{1, 3600, 43200, 315360000, 1<<32 + 43200} {
 			for _, algo := range []int{0, 1, 2, 3, 4, 99} {
 				k := base
 				k.KeyIDs, k.Validity, k.Algo = ids, val, algo
